@@ -55,7 +55,7 @@ def board_params(rng, idx):
     else:
         seed = rng.randrange(2 ** 31)
     if idx % 97 == 0:
-        length, width = (1, 500) if idx % 2 else (500, 1)
+        length, width = [(1, 500), (500, 1), (3000, 2), (2, 3000)][(idx // 97) % 4]
     else:
         length, width = rng.randint(1, 12), rng.randint(1, 12)
     return seed, length, width, rng.choice(P_LOOSE), rng.choice([1, 2, 6, 20, 60]), rng.random() < 0.5
@@ -71,7 +71,13 @@ def decide_board(idx, seed0):
     res = {"idx": idx, "verdict": "held", "tags": ["BOARD"], "key": repr(args), "nontrivial": length * width >= 2,
            "stats": {"boards": 1, "tiles": length * width, "force_down_boards": int(fd)}}
     problems = []
-    b1 = rg.gen_rnd_board(*args)
+    try:
+        b1 = rg.gen_rnd_board(*args)
+    except BaseException as e:      # noqa
+        if isinstance(e, (KeyboardInterrupt, SystemExit)):
+            raise
+        res.update(verdict="violated", what="gen_rnd_board raised %s for an accepted parameter set %s" % (type(e).__name__, args), case={"board_args": list(args)})
+        return res
     problems += validate_board(b1[0], b1[1], b1[2], length, width, mr, fd)
     b2 = rg.gen_rnd_board(*args)
     if b1 != b2:
